@@ -10,6 +10,10 @@
 (*  verify  Tink was given (sig, msg) - made by Tink or by the reference signer      *)
 (*          (Plan_Sig), then mutated by the driver (kind) - and answered ok; its     *)
 (*          verdict must equal the reference's.                                      *)
+(*  inIntact (both): every message / signature is handed over as a sub-slice of a    *)
+(*          driver-owned frame (live data, sentinel-filled spare capacity and guards  *)
+(*          behind it); the frame must be byte-identical after the call.  A call that  *)
+(*          alters the caller's message has not signed / verified the pair it was given.*)
 (*  construct  coverage only (which configurations the library refuses).            *)
 (* Known-answer events of bin/selfspec (Wycheproof) use `verify` with route          *)
 (* "wycheproof".  A disagreement between the TLA+ reference and the JDK's own        *)
@@ -57,6 +61,8 @@ Judge(e) ==
   IF e.ev = "construct" THEN <<>>                       \* coverage only (DESIGN section 4)
   ELSE IF e.ev \notin {"sign", "verify"} THEN <<"unknown event", e.ev>>
   ELSE IF e.panic THEN <<"Sign/Verify panicked", e.ev>>
+  ELSE IF ~e.inIntact
+       THEN <<"Sign/Verify wrote into the caller's buffers (message or signature frame, spare capacity or guard changed)", "unchanged">>
   ELSE IF e.ev = "sign" /\ e.err THEN <<"Sign failed on a valid key", "signature">>
   ELSE LET j == SigJudge(Cfg(e), Pk(e), HexToBytes(e.sig), HexToBytes(e.msg))
        IN IF ~j.agree THEN Split ELSE Verdict(e, j)
